@@ -1234,6 +1234,7 @@ func checkC19(e *Engine, r *Report) {
 				}
 			}
 		})
+		checkBuiltinDefsAdded(e, r, fb, fDefs)
 		r.Check("R5:reserved-type-prepended", "selection order", "the implicit reserved balloon type is inserted at the front of the configured list", e.Pos(fb.Pos()), fb, prepended, "", true)
 		// kube-system and ReservedPoolNamespaces are added to the reserved type's namespaces
 		fNS := e.Field(pkgCfgBL, "BalloonDef", "Namespaces")
